@@ -271,9 +271,9 @@ func (p *Parser) Documents() []*Document {
 }
 
 // outputDocument returns the output objects generated by the specified
-// document.
-func (p *Parser) outputDocument(doc *Document) ([]any, error) {
-	docs, err := doc.Process(p.docs)
+// document, evaluated against the document set all.
+func (p *Parser) outputDocument(doc *Document, all []*Document) ([]any, error) {
+	docs, err := doc.Process(all)
 	if err != nil {
 		return nil, err
 	}
@@ -316,8 +316,15 @@ func (p *Parser) outputDocument(doc *Document) ([]any, error) {
 func (p *Parser) OutputDocuments() ([]any, error) {
 	ret := []any{}
 
-	for _, doc := range p.docs {
-		outs, err := p.outputDocument(doc)
+	// Evaluation rewrites documents in place. Work on copies so that the
+	// parser's merged state is the same before and after producing output.
+	docs := make([]*Document, len(p.docs))
+	for i, doc := range p.docs {
+		docs[i] = &Document{ID: doc.ID, Parents: doc.Parents, Data: copyTree(doc.Data)}
+	}
+
+	for _, doc := range docs {
+		outs, err := p.outputDocument(doc, docs)
 		if err != nil {
 			return nil, err
 		}
